@@ -6,7 +6,8 @@
 EXTENDS LifecycleModel, TLC, Json
 
 CONSTANTS Q,          \* readers in registration order (sequence of ids)
-          Kinds, SCtxs, FCtxs, MaxSteps, MaxItems
+          Kinds, SCtxs, FCtxs, MaxSteps, MaxItems,
+          Faults      \* fault modes the environment may switch to ({} = never a fault), see LifecycleModel
 
 VARIABLES st, steps, act
 vars == <<st, steps, act>>
@@ -15,6 +16,7 @@ OpSet(s) ==
   {[op |-> "Shutdown", ctx |-> c] : c \in SCtxs}
   \cup {[op |-> "ForceFlush", ctx |-> c] : c \in FCtxs}
   \cup {[op |-> "Meter"]}
+  \cup {[op |-> "Fault", f |-> f] : f \in (Faults \cup (IF Faults = {} THEN {} ELSE {"none"})) \ {s.fault}}
   \cup {[op |-> "Collect", r |-> r] : r \in SeqToSet(Q)}
   \cup (IF s.total < MaxItems THEN {[op |-> "Add", via |-> v] : v \in {"old", "new"}} ELSE {})
 
@@ -26,7 +28,7 @@ Spec == Init /\ [][Next]_vars
 View == <<st, steps>>
 EmitEdge == PrintT("EDGE " \o ToJson([from |-> st, act |-> act', to |-> st']))
 
-Inv == MPOk(st)
+Inv == MPOk(st) /\ ExporterShutWith(Kinds, st)
 NothingExportedAfterShutdown ==
   [][(st.down /\ \A r \in SeqToSet(Q) : st.sd[r] = 1) =>
         (st'.nexp = st.nexp /\ st'.sd = st.sd /\ st'.xsd = st.xsd)]_vars
